@@ -2,9 +2,11 @@
 
 Domain : models in MJX's supported set (vf/gen_mjx.py) x batches of 2-6 states x state signatures
          (all 2^14 for state_size, a sample for get/set).
-Oracle : (A) jit(f)(x) == eager f(x) and jit(vmap(f))(xs)[i] == jit(f)(xs[i]) on EVERY leaf of the returned
-             mjx.Data for f in {step, forward (RK4 models), kinematics+com_pos}, scaled tolerance (XLA may
-             re-associate / fuse);
+Oracle : (A) jit(vmap(f))(xs)[i] == jit(f)(xs[i]) on EVERY leaf of the returned mjx.Data for f = step (solver capped at
+             6 iterations, tolerance 1e-6: batch members leave the solver loop at different iterations) and f = forward
+             without collision/constraint/solver; jit(f)(x) == eager f(x) (jax.disable_jit) for the latter on 1-2 samples
+             per model and for step once per worker in the thorough tier (eager step costs minutes); scaled tolerance
+             (XLA may re-associate / fuse);
          (B) get_data(put_data(d)) == d bit-exactly on every MjData field that mjx.Data carries (contacts and
              constraint rows as multisets because MJX groups contacts by condim);
          (C) make_data(m) == put_data(m, MjData(m)) leaf by leaf;
@@ -175,9 +177,9 @@ def check_transparency(ck, lib, gm, seeds, worst, eager_samples, eager_step=0):
       compare_trees(jax, singles[i], oe, 'jit %s vs eager [%d]' % (name, i), worst, post)
     timing[name + ':eager'] = time.time() - t0
     if name == 'step':
-      sigs = [active_signature(o) + (int(np.asarray(o._impl.solver_niter)),) for o in singles]
+      sigs = [active_signature(o) for o in singles]
   if os.environ.get('C44_PRINT'):
-    print('  A timing', {k: round(v, 1) for k, v in timing.items()}, 'nv', c.tm.nv, 'niter', [x[2] for x in sigs], flush=True)
+    print('  A timing', {k: round(v, 1) for k, v in timing.items()}, 'nv', c.tm.nv, flush=True)
   distinct = len(set(sigs)) if sigs else 1
   ncon_any = any(len(s[0]) for s in sigs)
   for i, s in enumerate(states):
@@ -467,7 +469,7 @@ RULE = ('models from vf.gen_mjx.models. (A) per model a batch of 3-6 states (odd
         'jit(f)(x_i) for all i on every pytree leaf for f = step (solver limited to 6 iterations, tolerance 1e-6 so that batch '
         'members leave the solver loop at different iterations) and f = forward-without-collision/solver; jit(f) vs eager f for '
         '1-2 samples of the latter (eager step only in the thorough tier: minutes per call); non-trivial = batch whose states have '
-        '>1 distinct (active contact set, active row set, solver iterations); (B) wheel MjData after 0/15/60 steps -> put_data -> '
+        '>1 distinct (active contact set, active row set); (B) wheel MjData after 0/15/60 steps -> put_data -> '
         'get_data, bit-exact field comparison; non-trivial = ncon>=1 and nefc>=1; (C) make_data vs put_data(MjData(m)) leaf by '
         'leaf; (D) all 2^14 signatures for state_size, full/empty/single-bit + random signatures for get_state/set_state vs the '
         'tree C engine; non-trivial = >=2 components, >=1 non-empty. distinct by (oracle, model xml, state seed / signature).')
